@@ -9,6 +9,7 @@ package main
 import (
 	"fmt"
 	"go/types"
+	"sort"
 	"strings"
 
 	"golang.org/x/tools/go/ssa"
@@ -510,26 +511,58 @@ func addCollections(m map[string]intrinsic) {
 				// KeySet passed by value: values are NoValue
 			}
 		}
+		// ---- the page request (query.initPageRequestDefaults) --------------------------------------------------------
+		var reqKey value // nil, or a keyToken carried by a NextKey of an earlier response
+		var offset, limit uint64
+		countTotal, reverse, explicit := false, false, false
 		if pr, ok := a[2].(*value); ok && pr != nil {
-			// an explicit page request: only the all-default request is summarised (paging is outside the claim)
-			for _, f := range (*pr).(structure) {
-				switch x := f.(type) {
-				case *Term:
-					if !x.IsConst() || x.C.Sign() != 0 {
-						panic(pathEnd{kind: "unsupported", msg: "CollectionPaginate with a non-default page request"})
-					}
-				case *Str:
-					if c, ok := x.Concrete(); !ok || c != "" {
-						panic(pathEnd{kind: "unsupported", msg: "CollectionPaginate with a non-default page request"})
-					}
-				case []value:
-					if len(x) != 0 {
-						panic(pathEnd{kind: "unsupported", msg: "CollectionPaginate with a non-default page request"})
-					}
+			prT := fn.Signature.Params().At(2).Type().(*types.Pointer).Elem()
+			ps := (*pr).(structure)
+			num := func(field string) uint64 {
+				k, _ := fieldIndex(prT, field)
+				t, ok := ps[k].(*Term)
+				if !ok || !t.IsConst() {
+					panic(pathEnd{kind: "unsupported", msg: "CollectionPaginate with a symbolic page request (" + field + ")"})
+				}
+				return t.C.Uint64()
+			}
+			offset, limit = num("Offset"), num("Limit")
+			countTotal, reverse = num("CountTotal") != 0, num("Reverse") != 0
+			k, _ := fieldIndex(prT, "Key")
+			switch x := ps[k].(type) {
+			case *Str:
+				if tok, ok := x.Blob.(keyToken); ok {
+					reqKey = tok.key
+				} else if c, ok := x.Concrete(); !ok || c != "" {
+					panic(pathEnd{kind: "unsupported", msg: "CollectionPaginate with a page key that is not a NextKey of an earlier response"})
+				}
+			case []value:
+				if len(x) != 0 {
+					panic(pathEnd{kind: "unsupported", msg: "CollectionPaginate with a page key that is not a NextKey of an earlier response"})
 				}
 			}
+			explicit = offset != 0 || limit != 0 || countTotal || reverse || reqKey != nil
 		}
-		const defaultLimit = 100 // query.DefaultLimit, applied when the request has no limit
+		if limit == 0 {
+			limit = 100 // query.DefaultLimit; the total is counted when no limit is supplied
+			countTotal = true
+		}
+		prT := fn.Signature.Results().At(1).Type().(*types.Pointer).Elem()
+		response := func(next value, total uint64) *value {
+			pr := new(value)
+			rs := zero(prT).(structure)
+			if next != nil {
+				k, _ := fieldIndex(prT, "NextKey")
+				rs[k] = &Str{Len: BVConstI(1, 64), B: []*Term{BVConstI(1, 8)}, Blob: keyToken{next}}
+			}
+			k, _ := fieldIndex(prT, "Total")
+			rs[k] = BVConstI(int64(total), 64)
+			*pr = rs
+			return pr
+		}
+		if offset > 0 && reqKey != nil {
+			return tuple{[]value(nil), (*value)(nil), newErr(st, "either offset or key is expected, got both")}
+		}
 		optT := fn.Signature.Params().At(4).Type().(*types.Slice).Elem().(*types.Signature).Params().At(0).Type().(*types.Pointer).Elem()
 		op := new(value)
 		*op = zero(optT)
@@ -541,12 +574,13 @@ func addCollections(m map[string]intrinsic) {
 			prefix = normKey(*pp)
 		}
 		s := st.coll(name)
-		keys, origs, vals := append([]value{}, s.keys...), append([]value{}, s.orig...), append([]value{}, s.vals...)
 		valT := fn.Signature.Params().At(3).Type().(*types.Signature).Params().At(1).Type()
-		out := []value{}
-		for k := range keys {
+		// entries under the prefix
+		type ent struct{ key, orig, val value }
+		var ents []ent
+		for k := range s.keys {
 			if prefix != nil {
-				kc := keys[k].(structure)
+				kc := s.keys[k].(structure)
 				match := True
 				for j, pc := range prefix.(structure) {
 					if p, isPtr := pc.(*value); isPtr && p == nil {
@@ -558,29 +592,95 @@ func addCollections(m map[string]intrinsic) {
 					continue
 				}
 			}
+			ents = append(ents, ent{s.keys[k], s.orig[k], s.vals[k]})
+		}
+		// iteration order: the store iterates in encoded-key order. With concrete keys that order is computed (signed
+		// integers ascending, strings bytewise); with symbolic keys only the unpaged request is summarised (insertion order,
+		// harnesses compare listings as sets).
+		concrete := true
+		for _, e := range ents {
+			if !keyConcrete(e.key) {
+				concrete = false
+			}
+		}
+		if concrete {
+			sort.SliceStable(ents, func(i, j int) bool { return keyLess(ents[i].key, ents[j].key) })
+			if reverse {
+				for i, j := 0, len(ents)-1; i < j; i, j = i+1, j-1 {
+					ents[i], ents[j] = ents[j], ents[i]
+				}
+			}
+		} else if explicit {
+			panic(pathEnd{kind: "unsupported", msg: "CollectionPaginate with a non-default page request on symbolic keys"})
+		}
+		transform := func(e ent) (value, iface) {
 			var val value
-			if t, isT := vals[k].(*Term); isT && t == True {
+			if t, isT := e.val.(*Term); isT && t == True {
 				val = zero(valT) // NoValue
 			} else {
-				val = copyVal(vals[k])
+				val = copyVal(e.val)
 			}
 			if isIndex {
 				val = zero(valT)
 			}
-			r := callClosure(st, fr, a[3], copyVal(origs[k]), val).(tuple)
-			if e := r[1].(iface); e.t != nil {
-				return tuple{[]value(nil), (*value)(nil), e}
-			}
-			out = append(out, r[0])
-			if len(out) == defaultLimit {
-				break
-			}
+			r := callClosure(st, fr, a[3], copyVal(e.orig), val).(tuple)
+			return r[0], r[1].(iface)
 		}
-		// PageResponse{NextKey: nil, Total: 0}: paging is outside the claim
-		prT := fn.Signature.Results().At(1).Type().(*types.Pointer).Elem()
-		pr := new(value)
-		*pr = zero(prT)
-		return tuple{out, pr, iface{}}
+		out := []value{}
+		if reqKey != nil {
+			// collFilteredPaginateByKey: start at the key (inclusive), in iteration order
+			startAt := len(ents)
+			for i, e := range ents {
+				if !reverse && !keyLess(e.key, reqKey) || reverse && !keyLess(reqKey, e.key) {
+					startAt = i
+					break
+				}
+			}
+			var next value
+			count := uint64(0)
+			for _, e := range ents[startAt:] {
+				if count == limit {
+					next = e.key
+					break
+				}
+				v, err := transform(e)
+				if err.t != nil {
+					return tuple{[]value(nil), (*value)(nil), err}
+				}
+				out = append(out, v)
+				count++
+			}
+			return tuple{out, response(next, 0), iface{}}
+		}
+		// collFilteredPaginateNoKey
+		if offset > uint64(len(ents)) {
+			return tuple{[]value(nil), response(nil, 0), iface{}} // ErrInvalidIterator is swallowed: empty page, empty response
+		}
+		var next value
+		count := uint64(0)
+		for _, e := range ents[offset:] {
+			if count < limit {
+				v, err := transform(e)
+				if err.t != nil {
+					return tuple{[]value(nil), (*value)(nil), err}
+				}
+				out = append(out, v)
+				count++
+				continue
+			}
+			if count == limit {
+				next = e.key
+				if !countTotal {
+					return tuple{out, response(next, 0), iface{}}
+				}
+			}
+			count++
+		}
+		total := uint64(0)
+		if countTotal {
+			total = count + offset
+		}
+		return tuple{out, response(next, total), iface{}}
 	}
 }
 
@@ -602,6 +702,54 @@ func withEnv(m map[string]intrinsic) {
 			}
 		}
 	}
+}
+
+// keyToken is the content of a NextKey: the (normalised) key the next page starts at
+type keyToken struct{ key value }
+
+func keyConcrete(k value) bool {
+	switch x := k.(type) {
+	case *Term:
+		return x.IsConst()
+	case *Str:
+		_, ok := x.Concrete()
+		return ok && x.Blob == nil
+	case structure:
+		for _, c := range x {
+			if !keyConcrete(c) {
+				return false
+			}
+		}
+		return true
+	}
+	return false
+}
+
+// keyLess: order of the encoded keys (collections key codecs): signed integers ascending, strings bytewise (a proper
+// prefix first), tuples component by component.
+func keyLess(a, b value) bool { return keyCmp(a, b) < 0 }
+
+func keyCmp(a, b value) int {
+	switch x := a.(type) {
+	case *Term:
+		return x.Signed().Cmp(b.(*Term).Signed())
+	case *Str:
+		sa, _ := x.Concrete()
+		sb, _ := b.(*Str).Concrete()
+		return strings.Compare(sa, sb)
+	case structure:
+		y := b.(structure)
+		for i := range x {
+			if i >= len(y) {
+				return 1
+			}
+			if c := keyCmp(x[i], y[i]); c != 0 {
+				return c
+			}
+		}
+		return 0
+	}
+	return 0
 }
 
 type typeBox struct{ t types.Type }
